@@ -122,6 +122,14 @@ def body(case, ctx):
 
     # ---- 2. same behaviour ---------------------------------------------------------------------
     e0, e1 = ref["error"], tst["error"]
+    for run_name, run in (("fresh writable arguments", ref), (f"pattern {pattern}/{cbmode}", tst)):
+        if isinstance(run["error"], reg.CallbackAbort):
+            if not run["cb_changed"]:
+                if run is ref:
+                    ctx.skip(f"solver ran away in the reference run of {name}")
+                else:
+                    ctx.fail(f"solver-runs-away-only-under-aliasing:{name}", f"{desc}: {run['error']}")
+            return
     if e0 is not None:
         if not isinstance(e0, _OK_ERRORS):
             ctx.skip(f"reference call raised {type(e0).__name__} in {name}")
